@@ -16,8 +16,10 @@ impl RollSum {
     /// Create a new instance of BuzHash with the given window size.
     pub fn new(window_size: usize) -> Self {
         Self {
-            s1: window_size as u32 * CHAR_OFFSET,
-            s2: window_size as u32 * (window_size - 1) as u32 * CHAR_OFFSET,
+            s1: (window_size as u32).wrapping_mul(CHAR_OFFSET),
+            s2: (window_size as u32)
+                .wrapping_mul((window_size - 1) as u32)
+                .wrapping_mul(CHAR_OFFSET),
             offset: 0,
             window: vec![0; window_size],
         }
@@ -29,7 +31,7 @@ impl RollSum {
         self.s2 = self.s2.wrapping_add(self.s1);
         self.s2 = self
             .s2
-            .wrapping_sub((self.window.len() as u32) * (drop + CHAR_OFFSET));
+            .wrapping_sub((self.window.len() as u32).wrapping_mul(drop + CHAR_OFFSET));
     }
     /// Process a single byte.
     pub fn input(&mut self, in_val: u8) {
